@@ -15,6 +15,7 @@ type Runner struct {
 	dss      map[int]*dsEntry
 	addMode  int
 	ctorMode int
+	obsMode  int
 	// per-history switches set by `#frame` (observe before/after every refused call)
 	checkFrame bool
 	quiet      bool
